@@ -95,8 +95,14 @@ def build(op, seed, variant=0):
 
     if op == "add_many":
         items = [mk_tt(rng, n, 2) for _ in range(3)] + ([1.5] if v % 2 else [])
+        if v % 8 == 6:
+            items = items[:1]               # a list with a single summand
         return C(op, teneva.add_many, [items], dict(e=1e-8, r=[1e12, 3][v % 2], trunc_freq=1 + v % 3))
     if op == "outer_many":
+        if v % 4 == 3:
+            return C(op, teneva.outer_many, [[Y]])      # a list with a single factor: still a new tensor
+        if v % 4 == 2:
+            return C(op, teneva.outer_many, [[Y, Y2]])
         return C(op, teneva.outer_many, [[Y, mk_tt(rng), Y2]])
     if op == "copy":
         # TT-tensor, dense array, number, None, and the arrays the docs file under "numpy array": 0-d, 1-d, a squeezed 1x1x1 core
@@ -346,6 +352,10 @@ def build(op, seed, variant=0):
             # so the documented retry with a doubled m_fact is taken
             c = np.array([1., 0.3, 0.1, 0.03]).reshape(1, 4, 1)
             return C(op, teneva.sample_square, [[c.copy() for _ in range(4)]], dict(m=20, unique=True, seed=int(seed % 1000)), seed_kw="seed")
+        if v % 6 == 4:
+            # a mode of size 1 inside the train (rank > 1 on both sides)
+            n1 = [3, 1, 4] if (v // 6) % 2 == 0 else [4, 3, 1, 2]
+            return C(op, teneva.sample_square, [mk_tt(rng, n1, 2)], dict(m=2 + v % 5, unique=bool((v // 6) % 2), seed=int(seed % 1000)), seed_kw="seed")
         return C(op, teneva.sample_square, [T], dict(m=1 + v % 4, unique=bool(v % 2), seed=int(seed % 1000)), seed_kw="seed")
     if op in ("sample_lhs", "sample_rand", "sample_tt"):
         nn = [n, np.array(n)][v % 2]
